@@ -266,7 +266,7 @@ def run(ck):
     cond_fields = {'non_edges', 'molecule_meta', 'patterns', 'removed_interactions', 'features'} & declared
     ck.ob('TAB-declared-consumed', molm.loc(link_cls), {'non_edges', 'molecule_meta', 'patterns', 'removed_interactions'} <= declared,
           'Link declares the condition-bearing fields {}'.format(sorted(cond_fields)), key='TAB-declared-consumed|declared')
-    src = mod.src
+    read_attrs = {n.attr for n in ast.walk(mod.tree) if isinstance(n, ast.Attribute) and isinstance(n.ctx, ast.Load)}
     for fld in sorted({'non_edges', 'molecule_meta', 'patterns', 'removed_interactions'}):
-        ck.ob('TAB-declared-consumed', DL, ('link.' + fld) in src, 'do_links.py reads link.{}'.format(fld), key='TAB-declared-consumed|' + fld)
+        ck.ob('TAB-declared-consumed', DL, fld in read_attrs, 'do_links.py reads the link field .{}'.format(fld), key='TAB-declared-consumed|' + fld)
     ck.assume('induced-ness and completeness of the networkx matcher, and "no unjustified interaction", are not decided')
